@@ -4,4 +4,16 @@ KeyCases == {[file |-> f, ref |-> Listed(f), impl |-> {k \in Offered : ImplKeyAc
 ASSUME ndJsonSerialize("c09_keycases.ndjson", SetToSeq(KeyCases))
 PwCases == {[user |-> u, pw |-> pw, addr |-> a, ref |-> RefPwAccept(u, pw, a), must |-> (a \notin IPv6)] : u \in Users, pw \in Passwords, a \in Addrs}
 ASSUME ndJsonSerialize("c09_pwcases.ndjson", SetToSeq(PwCases))
+\* (C) logins over a real SSH connection to the real server (source address ip1 = 127.0.0.1): which authentication method
+\* with which credential opens a connection.  "other" has the authorized-keys file <<cmt, A>>, "nofile" has none; the
+\* service users have none either.  Methods the server does not offer ("none", keyboard-interactive) open nothing.
+WireUsers == {"other", "nofile", "health", "schedule", "continuous"}
+WireFile(u) == IF u = "other" THEN <<"cmt", "A">> ELSE <<>>
+WireAttempts == {[user |-> u, method |-> "none", cred |-> ""] : u \in WireUsers}
+           \cup {[user |-> u, method |-> "kbd", cred |-> "HEALTHPW"] : u \in WireUsers}
+           \cup {[user |-> u, method |-> "key", cred |-> k] : u \in WireUsers, k \in Offered}
+           \cup {[user |-> u, method |-> "password", cred |-> pw] : u \in WireUsers, pw \in Passwords}
+RefWireAccept(a) == \/ a.method = "key" /\ RefKeyAccept(WireFile(a.user), a.cred)
+                    \/ a.method = "password" /\ RefPwAccept(a.user, a.cred, "ip1")
+ASSUME ndJsonSerialize("c09_wirecases.ndjson", SetToSeq({[user |-> a.user, method |-> a.method, cred |-> a.cred, ref |-> RefWireAccept(a)] : a \in WireAttempts}))
 ==============================================================================
